@@ -42,7 +42,7 @@ func rulePredMeaning() *Rule {
 					why: "a leader that believes it has committed in its term although it has not serves reads at a commit index that may lag behind what its predecessor acknowledged, and accepts membership changes it must refuse"},
 				{fn: "(*Raft).pendingConfigurationChange", safe: "true",
 					allowed: map[string]bool{
-						key("r.committedConfiguration", "==", "nil:*Configuration"):                true,
+						key("r.committedConfiguration", "==", "nil:*Configuration"):          true,
 						key("r.committedConfiguration.Index", "!=", "r.configuration.Index"): true,
 					},
 					why: "a membership change is accepted, or a snapshot labelled with the configuration in force, while another change is still uncommitted"},
